@@ -8,6 +8,7 @@ CONSTANTS
   CfgPool = "full"
   ListPool = "basic"
   AccNs = {"", "a", "b", "n", "math"}
+  LawDev = {}
   AccMembers <- AccMembersAll
-INVARIANTS InvNamespaceOnly InvConfigOnlyDefault InvShowHideComplement InvBuiltin Emit
+INVARIANTS InvNamespaceOnly InvConfigOnlyDefault InvShowHideComplement InvFilterExact InvBuiltin Emit
 CHECK_DEADLOCK FALSE
